@@ -63,6 +63,20 @@ func (v UnkV) valString() string   { return "?" + v.Text }
 func (v BufV) valString() string   { return fmt.Sprintf("buf#%d[%s:]", v.ID, v.Off) }
 func (v ObjV) valString() string   { return v.Path }
 func (v ClosV) valString() string  { return "closure" }
+
+// PtrV is the address of a receiver-reachable field (Path) or of a local variable (Var).
+type PtrV struct {
+	Path string
+	Var  types.Object
+	Elem types.Type
+}
+
+func (v PtrV) valString() string {
+	if v.Var != nil {
+		return "&" + v.Var.Name()
+	}
+	return "&" + v.Path
+}
 func (v SliceV) valString() string { return "slice(" + v.Path + ")" }
 
 // ---------------------------------------------------------------- buffers
@@ -97,6 +111,9 @@ type BufObj struct {
 	Cursor  types.Object
 	Pos     token.Pos
 	Snap    map[string]*Term
+	// FromRead: the read record that filled this fresh buffer (net.IPv4(data[n], …)); when the buffer is
+	// later stored into a receiver field the record is relabelled with that field
+	FromRead *Rec
 }
 
 func (b *BufObj) clone() *BufObj {
@@ -211,6 +228,7 @@ type Interp struct {
 	breaks      []*brk
 	continues   []*brk
 	fellThrough bool
+	byRef       bool   // closure body: assignments to captured variables are written back to the caller's frame
 	contGuard   string // set by execIf: guard under which the rest of the enclosing block runs
 	curLit      *ast.FuncType
 }
@@ -506,7 +524,18 @@ func (in *Interp) render(st *State, e ast.Expr) string {
 	case *ast.IndexExpr:
 		return in.render(st, x.X) + "[" + in.render(st, x.Index) + "]"
 	case *ast.StarExpr:
-		return "*" + in.render(st, x.X)
+		if st != nil {
+			if id, ok := unparen(x.X).(*ast.Ident); ok {
+				if pv, ok := st.vars[in.obj(id)].(PtrV); ok && pv.Var == nil {
+					return pv.Path
+				}
+			}
+		}
+		if inner := in.render(st, x.X); strings.HasPrefix(inner, "&") {
+			return inner[1:]
+		} else {
+			return "*" + inner
+		}
 	case *ast.CallExpr:
 		var a []string
 		for _, arg := range x.Args {
@@ -585,13 +614,22 @@ func (in *Interp) operand(st *State, e ast.Expr) string {
 	if tv, ok := in.info.Types[e]; ok && tv.Value != nil {
 		return tv.Value.ExactString()
 	}
+	return in.operandVal(st, e, in.eval(st, e))
+}
+
+// operandVal renders an operand whose value was already computed (evaluating twice would repeat the
+// effects of an inlined helper or closure).
+func (in *Interp) operandVal(st *State, e ast.Expr, val Val) string {
+	if tv, ok := in.info.Types[e]; ok && tv.Value != nil {
+		return tv.Value.ExactString()
+	}
 	t := in.info.TypeOf(e)
 	if t != nil && isIntType(t) {
-		if v, ok := in.eval(st, e).(IntV); ok {
+		if v, ok := val.(IntV); ok {
 			return v.T.String()
 		}
 	}
-	switch v := in.eval(st, e).(type) {
+	switch v := val.(type) {
 	case ObjV:
 		return v.Path
 	case NilV:
@@ -775,6 +813,15 @@ func (in *Interp) eval(st *State, e ast.Expr) Val {
 		if ov, ok := v.(ObjV); ok {
 			return ObjV{Path: ov.Path, Type: derefType(ov.Type)}
 		}
+		if pv, ok := v.(PtrV); ok {
+			if pv.Var != nil {
+				if cur, ok := st.vars[pv.Var]; ok {
+					return cur
+				}
+			} else {
+				return in.readPath(st, pv.Path, pv.Elem)
+			}
+		}
 		if t := in.info.TypeOf(e); t != nil && isIntType(t) {
 			if uv, ok := v.(UnkV); ok {
 				return IntV{ValOf("*" + uv.Text)}
@@ -791,6 +838,19 @@ func (in *Interp) eval(st *State, e ast.Expr) Val {
 			v := in.eval(st, x.X)
 			if ov, ok := v.(ObjV); ok {
 				return ObjV{Path: ov.Path, Type: types.NewPointer(ov.Type)}
+			}
+			// the address of a scalar, slice or interface field, or of a local variable
+			switch ax := unparen(x.X).(type) {
+			case *ast.SelectorExpr:
+				if p, t, ok := in.selPath(st, ax); ok {
+					return PtrV{Path: p, Elem: t}
+				}
+			case *ast.Ident:
+				if vr, ok := in.obj(ax).(*types.Var); ok && !(vr.Pkg() != nil && vr.Parent() == vr.Pkg().Scope()) {
+					if _, known := st.vars[vr]; known {
+						return PtrV{Var: vr, Elem: vr.Type()}
+					}
+				}
 			}
 			return UnkV{"&" + in.render(st, x.X)}
 		case token.NOT:
